@@ -530,7 +530,21 @@ def C20_full_cfg (c : Cfg) (d : Dyn σ ρ) : Prop :=
     -- wave 6: temporary files left by writes that died (nothing / a torn prefix / complete but not renamed, at any
     -- requests of any history) never influence an answer: the server with the temporary files answers as the server
     -- above, which has none — a load reads the committed state file only
-    (∀ ocs : List (Op × Cut), runCT c d (Server.empty, noTmps) ocs = runCC c d Server.empty (ocs.map (·.1)))
+    (∀ ocs : List (Op × Cut), runCT c d (Server.empty, noTmps) ocs = runCC c d Server.empty (ocs.map (·.1))) ∧
+    -- wave 8: however the stepping requests end (answered / the client of a stream gone), the server answers as the one
+    -- above, which writes the instance after every stepping request
+    (∀ oes : List (Op × Ending), runCE c d Server.empty oes = runCC c d Server.empty (oes.map (·.1)))
+
+theorem stepCE_good (c : Cfg) (h : c.saveOnEveryEnding = true) (d : Dyn σ ρ) (s : Server σ) (oe : Op × Ending) :
+    stepCE c d s oe = stepCC c d s oe.1 := by
+  obtain ⟨op, e⟩ := oe
+  cases op <;> cases e <;> simp [stepCE, stepCC, h]
+
+theorem runCE_good (c : Cfg) (h : c.saveOnEveryEnding = true) (d : Dyn σ ρ) : ∀ (oes : List (Op × Ending)) (s : Server σ),
+    runCE c d s oes = runCC c d s (oes.map (·.1))
+  | [], _ => rfl
+  | oe :: oes, s => by
+    simp only [runCE, runCC, List.map_cons, stepCE_good c h, runCE_good c h d oes]
 
 theorem readT_good (c : Cfg) (h : c.loadReadsCommitted = true) (s : Server σ) (t : Tmps) (id : Nat) :
     readT c s t id = readable s.files id := by simp [readT, h]
@@ -580,19 +594,21 @@ theorem startup_perEntry (compress : Bool) : ∀ l : List (Option Persist),
 
 theorem C20_full_of_good (c : Cfg) (h : c.good = true) (d : Dyn σ ρ) : C20_full_cfg c d := by
   have hl : c.loadIsPerEntry = true := by
-    simp only [Cfg.good, Bool.and_eq_true] at h; exact h.1.1.2
+    simp only [Cfg.good, Bool.and_eq_true] at h; exact h.1.1.1.2
   have hm : c.loadReadsCommitted = true := by
+    simp only [Cfg.good, Bool.and_eq_true] at h; exact h.1.2
+  have he : c.saveOnEveryEnding = true := by
     simp only [Cfg.good, Bool.and_eq_true] at h; exact h.2
   have h : c.restoreOK = true := by
-    simp only [Cfg.good, Cfg.restoreOK, Bool.and_eq_true] at h ⊢; exact ⟨h.1.1.1, h.1.2⟩
+    simp only [Cfg.good, Cfg.restoreOK, Bool.and_eq_true] at h ⊢; exact ⟨h.1.1.1.1, h.1.1.2⟩
   intro ops
   have hold := C20_full_holds d (ops.map (atomize c.atomicWrite))
   obtain ⟨_, hi, _⟩ := run_sim d (ops.map (atomize c.atomicWrite)) _ _ (inv_empty d) (rel_empty d)
   simp only [runCC_good c h, finalCC_good c h, stepCC_good c h, effC_good c h]
   refine ⟨hold.1, ?_, ?_, ?_, fun compress l => by simp only [loadEntries, hl, if_true]; exact startup_perEntry compress l, ?_⟩
   rotate_right
-  · intro ocs
-    rw [runCT_good c hm d ocs _, runCC_good c h]
+  · exact ⟨fun ocs => by rw [runCT_good c hm d ocs _, runCC_good c h],
+           fun oes => by rw [runCE_good c he d oes _, runCC_good c h]⟩
   · intro id st p hp
     simpa [atomize] using hold.2.1 id st p hp
   · intro id st x hx
@@ -611,11 +627,11 @@ theorem map_atomize_false : ∀ ops : List Op, ops.map (atomize false) = ops
   | op :: ops => by cases op <;> simp [atomize, map_atomize_false ops]
 
 /-- the statement of wave 1 is the instance `replayIsComplete, ¬ atomicWrite` -/
-theorem C20_full_of_cfg (d : Dyn σ ρ) (hc : C20_full_cfg ⟨true, false, true, true, true, true⟩ d) : C20_full d := by
+theorem C20_full_of_cfg (d : Dyn σ ρ) (hc : C20_full_cfg ⟨true, false, true, true, true, true, true⟩ d) : C20_full d := by
   intro ops
   have := hc ops
-  simp only [runCC_good ⟨true, false, true, true, true, true⟩ rfl, finalCC_good ⟨true, false, true, true, true, true⟩ rfl, stepCC_good ⟨true, false, true, true, true, true⟩ rfl,
-    effC_good ⟨true, false, true, true, true, true⟩ rfl] at this
+  simp only [runCC_good ⟨true, false, true, true, true, true, true⟩ rfl, finalCC_good ⟨true, false, true, true, true, true, true⟩ rfl, stepCC_good ⟨true, false, true, true, true, true, true⟩ rfl,
+    effC_good ⟨true, false, true, true, true, true, true⟩ rfl] at this
   simp only [map_atomize_false, atomize] at this
   exact ⟨this.1, this.2.1, this.2.2.1⟩
 
@@ -632,18 +648,18 @@ are not replayed, the constant given after the restart is applied to them as wel
 theorem C20_witness_partial_replay (c : Cfg) (h : c.replayIsComplete = false) : ¬ C20_full_cfg c lazyDyn := by
   intro hf
   have h4 := (hf lateOps).1 4
-  obtain ⟨r, a, l, o, m, j⟩ := c
+  obtain ⟨r, a, l, o, m, e, j⟩ := c
   simp only at h
   subst h
-  cases a <;> cases l <;> cases o <;> cases m <;> cases j <;> exact absurd h4 (by decide)
+  cases a <;> cases l <;> cases o <;> cases m <;> cases e <;> cases j <;> exact absurd h4 (by decide)
 
 /-- what the complete replay answers, and what the incomplete one answers -/
-example : (runCC ⟨true, false, true, true, true, true⟩ lazyDyn Server.empty lateOps)[4]? = some (.ok [(1024, "1"), (2048, "1"), (3072, "5")]) := by decide
+example : (runCC ⟨true, false, true, true, true, true, true⟩ lazyDyn Server.empty lateOps)[4]? = some (.ok [(1024, "1"), (2048, "1"), (3072, "5")]) := by decide
 example : (runU lazyDyn UServer.empty lateOps)[4]? = some (.ok [(1024, "1"), (2048, "1"), (3072, "5")]) := by decide
-example : (runCC ⟨false, false, true, true, true, true⟩ lazyDyn Server.empty lateOps)[4]? = some (.ok [(1024, "5"), (2048, "5"), (3072, "5")]) := by decide
+example : (runCC ⟨false, false, true, true, true, true, true⟩ lazyDyn Server.empty lateOps)[4]? = some (.ok [(1024, "5"), (2048, "5"), (3072, "5")]) := by decide
 /-- … and why such a defect passes every history WITHOUT settings after the restart: on-demand computation
 gives the same values then -/
-example : runCC ⟨false, false, true, true, true, true⟩ lazyDyn Server.empty quietOps = runU lazyDyn UServer.empty quietOps := by decide
+example : runCC ⟨false, false, true, true, true, true, true⟩ lazyDyn Server.empty quietOps = runU lazyDyn UServer.empty quietOps := by decide
 
 /-! ### the order of the restored log (wave 4) -/
 
@@ -660,13 +676,33 @@ session replays step 10 before step 9, so the constant set in step 9 is not in f
 theorem C20_witness_sorted_keys (c : Cfg) (h : c.replayOrderPreserved = false) : ¬ C20_full_cfg c lazyDyn := by
   intro hf
   have h4 := (hf digitOps).1 4
-  obtain ⟨r, a, l, o, m, j⟩ := c
+  obtain ⟨r, a, l, o, m, e, j⟩ := c
   simp only at h
   subst h
-  cases r <;> cases a <;> cases l <;> cases m <;> cases j <;> exact absurd h4 (by decide)
+  cases r <;> cases a <;> cases l <;> cases m <;> cases e <;> cases j <;> exact absurd h4 (by decide)
 
-example : (runCC ⟨true, false, true, false, true, true⟩ lazyDyn Server.empty digitOps)[4]? = some (.ok [(9, "1"), (10, "1"), (11, "5")]) := by decide
+example : (runCC ⟨true, false, true, false, true, true, true⟩ lazyDyn Server.empty digitOps)[4]? = some (.ok [(9, "1"), (10, "1"), (11, "5")]) := by decide
 example : (runU lazyDyn UServer.empty digitOps)[4]? = some (.ok [(9, "5"), (10, "5"), (11, "5")]) := by decide
+
+/-! ### a stream whose client hung up (wave 8) -/
+
+def goneOps : List (Op × Ending) :=
+  [(.start 1 lateSpec, .answered), (.step 1 [(0, "c=5")], .answered), (.step 1 [], .clientGone), (.crash, .answered), (.step 1 [], .answered)]
+
+/-- If the write is skipped when the client of a stream hangs up, the steps of that stream never reach the state file: after
+a crash the restored session resumes at the step written before the stream. -/
+theorem C20_witness_client_gone (c : Cfg) (h : c.saveOnEveryEnding = false) : ¬ C20_full_cfg c histDyn := by
+  intro hf
+  have h7 := (hf []).2.2.2.2.2.2 goneOps
+  obtain ⟨r, a, l, o, m, e, j⟩ := c
+  simp only at h
+  subst h
+  cases r <;> cases a <;> cases l <;> cases o <;> cases m <;> cases j <;> exact absurd h7 (by decide)
+
+example : runCE ⟨true, true, true, true, true, false, true⟩ histDyn Server.empty goneOps
+    = [.none, .ok [(1024, [(0, "c=5")])], .ok [(1024, [(0, "c=5")]), (2048, [])], .none, .ok [(1024, [(0, "c=5")]), (2048, [])]] := by decide
+example : runCE ⟨true, true, true, true, true, true, true⟩ histDyn Server.empty goneOps
+    = [.none, .ok [(1024, [(0, "c=5")])], .ok [(1024, [(0, "c=5")]), (2048, [])], .none, .ok [(1024, [(0, "c=5")]), (2048, []), (3072, [])]] := by decide
 
 /-! ### the temporary file read first (wave 6) -/
 
@@ -679,23 +715,23 @@ had kept its previous state. -/
 theorem C20_witness_temp_first (c : Cfg) (h : c.loadReadsCommitted = false) (ha : c.atomicWrite = true) :
     ¬ C20_full_cfg c histDyn := by
   intro hf
-  have h6 := (hf []).2.2.2.2.2 (tmpOps .prefix)
-  obtain ⟨r, a, l, o, m, j⟩ := c
+  have h6 := (hf []).2.2.2.2.2.1 (tmpOps .prefix)
+  obtain ⟨r, a, l, o, m, e, j⟩ := c
   simp only at h ha
   subst h; subst ha
-  cases r <;> cases l <;> cases o <;> cases j <;> exact absurd h6 (by decide)
+  cases r <;> cases l <;> cases o <;> cases e <;> cases j <;> exact absurd h6 (by decide)
 
 /-- the committed file is read (clean tree): every cut, the complete-but-not-renamed one included, loses the request
 as a whole and nothing else; "temp first": a torn prefix loses the instance, a complete temporary file makes the
 restored instance one step ahead of what was ever answered -/
-example : ∀ cut, runCT ⟨true, true, true, true, true, true⟩ histDyn (Server.empty, noTmps) (tmpOps cut)
+example : ∀ cut, runCT ⟨true, true, true, true, true, true, true⟩ histDyn (Server.empty, noTmps) (tmpOps cut)
     = [.none, .ok [(1024, [(0, "c=5")])], .none, .ok [(1024, [(0, "c=5")]), (2048, [])]] := by
   intro cut; cases cut <;> decide
-example : runCT ⟨true, true, true, true, false, true⟩ histDyn (Server.empty, noTmps) (tmpOps .prefix)
+example : runCT ⟨true, true, true, true, false, true, true⟩ histDyn (Server.empty, noTmps) (tmpOps .prefix)
     = [.none, .ok [(1024, [(0, "c=5")])], .none, .invalid] := by decide
-example : runCT ⟨true, true, true, true, false, true⟩ histDyn (Server.empty, noTmps) (tmpOps .all)
+example : runCT ⟨true, true, true, true, false, true, true⟩ histDyn (Server.empty, noTmps) (tmpOps .all)
     = [.none, .ok [(1024, [(0, "c=5")])], .none, .ok [(1024, [(0, "c=5")]), (2048, []), (3072, [])]] := by decide
-example : runCT ⟨true, true, true, true, false, true⟩ histDyn (Server.empty, noTmps) (tmpOps .nothing)
+example : runCT ⟨true, true, true, true, false, true, true⟩ histDyn (Server.empty, noTmps) (tmpOps .nothing)
     = [.none, .ok [(1024, [(0, "c=5")])], .none, .ok [(1024, [(0, "c=5")]), (2048, [])]] := by decide
 
 /-! ### the skipping load (wave 3) -/
@@ -767,15 +803,15 @@ theorem noLoss_of_atomic (c : Cfg) (h : c.good = true) (ha : c.atomicWrite = tru
 theorem noLoss_witness (c : Cfg) (ha : c.atomicWrite = false) : ¬ NoLossInWrite c histDyn := by
   intro hf
   have := hf [.start 1 lateSpec, .step 1 []] 1 [] 1 { spec := lateSpec, step := 2048, log := [(1024, [])] }
-  obtain ⟨r, a, l, o, m, j⟩ := c
+  obtain ⟨r, a, l, o, m, e, j⟩ := c
   simp only at ha
   subst ha
-  cases r <;> cases l <;> cases o <;> cases m <;> cases j <;> exact absurd (this (by decide)) (by decide)
+  cases r <;> cases l <;> cases o <;> cases m <;> cases e <;> cases j <;> exact absurd (this (by decide)) (by decide)
 
 /-- the torn request is retried after the restart and answered as the uninterrupted session answers it -/
-example : runCC ⟨true, true, true, true, true, true⟩ histDyn Server.empty [.start 1 lateSpec, .step 1 [(0, "c=5")], .crashInWrite 1 [], .step 1 []]
+example : runCC ⟨true, true, true, true, true, true, true⟩ histDyn Server.empty [.start 1 lateSpec, .step 1 [(0, "c=5")], .crashInWrite 1 [], .step 1 []]
     = [.none, .ok [(1024, [(0, "c=5")])], .none, .ok [(1024, [(0, "c=5")]), (2048, [])]] := by decide
-example : runCC ⟨true, false, true, true, true, true⟩ histDyn Server.empty [.start 1 lateSpec, .step 1 [(0, "c=5")], .crashInWrite 1 [], .step 1 []]
+example : runCC ⟨true, false, true, true, true, true, true⟩ histDyn Server.empty [.start 1 lateSpec, .step 1 [(0, "c=5")], .crashInWrite 1 [], .step 1 []]
     = [.none, .ok [(1024, [(0, "c=5")])], .none, .invalid] := by decide
 
 #print axioms C20_full_holds
@@ -788,6 +824,8 @@ example : runCC ⟨true, false, true, true, true, true⟩ histDyn Server.empty [
 #print axioms C20_witness_skipping_load
 #print axioms C20_witness_sorted_keys
 #print axioms C20_witness_temp_first
+#print axioms C20_witness_client_gone
+#print axioms runCE_good
 #print axioms noStartupFailure_of_skip
 #print axioms noStartupFailure_witness
 #print axioms runCT_good
